@@ -207,3 +207,15 @@ impl<const ROUNDS: usize> State<ROUNDS> {
         }
     }
 }
+
+#[cfg(feature = "verif-hooks")]
+impl<const ROUNDS: usize> State<ROUNDS> {
+    /// verification hook: set the two low counter words (state words 12 and 13)
+    pub(crate) fn verif_set_counter64(&mut self, lo: u32, hi: u32) {
+        let mut align = Align128::zero();
+        align.from_m128i(self.d);
+        align.0[0] = lo;
+        align.0[1] = hi;
+        self.d = align.to_m128i();
+    }
+}
